@@ -10,6 +10,8 @@ package requestmanager
 //@ func RequestManager.requestTask
 //@   lenient
 //@   safety off
+//@   -- (C07: the budget is handed to the traversal as an int64: the conversion must preserve the limit)
+//@   overflow checked
 //@   modifies inProgressRequestStatus.traverserCancel, inProgressRequestStatus.traverser, inProgressRequestStatus.reconciledLoader,
 //@            inProgressRequestStatus.state, alloc, Budget.NodeBudget, Budget.LinkBudget
 //@   watch globalMax: rm.maxLinksPerRequest
@@ -19,7 +21,7 @@ package requestmanager
 //@   callsite TraversalBuilder.Start: assert
 //@        let g := rm.maxLinksPerRequest :: let r := ipr.maxLinks ::
 //@        let eff := ite(g == 0, r, ite(r != 0 && r < g, r, g)) ::
-//@        (eff == 0 <==> self.Budget == nil) && (eff != 0 ==> self.Budget.LinkBudget == eff)
+//@        (eff == 0 <==> self.Budget == nil) && (eff != 0 ==> self.Budget.LinkBudget == ite(eff > 9223372036854775807, 9223372036854775807, eff))
 //@   -- C22: the traversal gets the manager's own panic callback
 //@   callsite TraversalBuilder.Start: assert self.PanicCallback == rm.panicCallback
 
